@@ -101,7 +101,7 @@ def generate(streams: core.Streams, tier: str) -> dict:
     # files: (dir, filename) per document; same filename in different dirs possible; several docs per file
     files = []
     dirs = ["d1", "d2", "d1/sub"]
-    fnames = ["rule_a.yml", "rule_b.yml", "win_proc_creation_rule.yml", "x.yml"]
+    fnames = ["rule_a.yml", "rule_b.yml", "win_proc_creation_rule.yml", "x.yml", "Rule_A.yml"]  # the last differs from the first in case only
     for d in docs:
         if files and gen.chance(w, 0.2):
             files.append(gen.pick(w, files))
